@@ -30,6 +30,9 @@ pub struct ConvOpts {
     pub env_prefix: String,
     /// extended grammar: allow_negative_numbers / allow_hyphen_values on options, subcommand_precedence_over_arg
     pub extended: bool,
+    /// a trailing multi-valued positional with allow_hyphen_values (its level then spells option
+    /// values detached or with `--long=`: `-oVAL` before such a positional is read as a positional value)
+    pub hyphen_pos: bool,
 }
 
 impl ConvOpts {
@@ -52,6 +55,7 @@ impl ConvOpts {
             aliases: true,
             env_prefix: String::new(),
             extended: true,
+            hyphen_pos: false,
         }
     }
 }
@@ -218,6 +222,13 @@ fn conv_level(rng: &mut Rng, o: &ConvOpts, name: String, depth_left: usize, inhe
         if o.extended && a.delim.is_none() && rng.chance(1, 5) {
             a.allow_negative = true;
         }
+        // a trailing multi-valued positional that swallows everything once it has started (`cmd run -v x`)
+        if o.hyphen_pos && last && !a.last && a.eff_num_args().1 == usize::MAX && rng.chance(1, 3) {
+            a.allow_hyphen = true;
+            a.allow_negative = false;
+            a.terminator = None;
+            a.delim = None;
+        }
         if o.required && rng.chance(1, 6) && c.args.iter().filter(|x| x.is_positional()).all(|x| x.required) && !a.last {
             a.required = true;
         }
@@ -239,12 +250,28 @@ fn conv_level(rng: &mut Rng, o: &ConvOpts, name: String, depth_left: usize, inhe
         // (values of the multi-valued one may be negative numbers: the look-ahead accepts those)
         c.args[second].allow_negative = rng.chance(1, 3);
         c.args[last].allow_negative = false;
+        c.args[second].allow_hyphen = false;
+        c.args[last].allow_hyphen = false;
         c.args[last].action = Some(Act::Set);
         c.args[last].num_args = None;
         c.args[last].last = false;
         c.args[last].required = true;
         c.args[last].delim = None;
         c.args[last].terminator = None;
+    }
+    if c.args.iter().any(|a| a.is_positional() && a.allow_hyphen) {
+        // clap reads a short token with any character that is not a known short (`-oVAL`, `-o=VAL`)
+        // as a value of the not-yet-started hyphen positional: options of this level are long-only
+        if c.args.iter().any(|a| !a.is_positional() && a.takes_values() && a.long.is_none()) {
+            for a in c.args.iter_mut().filter(|a| a.is_positional()) {
+                a.allow_hyphen = false;
+            }
+        } else {
+            for a in c.args.iter_mut().filter(|a| !a.is_positional() && a.takes_values()) {
+                a.short = None;
+                a.short_aliases.clear();
+            }
+        }
     }
     if o.infer && rng.chance(1, 3) {
         c.set(Setting::InferLongArgs);
@@ -417,6 +444,9 @@ pub fn gen_intent(rng: &mut Rng, c: &CmdSpec, io: &IntentOpts) -> LevelIntent {
     // adjacent, at the very end of the line, nothing after them
     let low_index = poss.len() >= 2 && c.args[poss[poss.len() - 2]].eff_num_args().1 > 1 && !c.args[poss[poss.len() - 1]].last;
     let sub = if low_index { None } else { sub };
+    // a positional that allows hyphen values takes every later token of the line
+    let hyphen_pos = poss.iter().any(|p| c.args[*p].allow_hyphen);
+    let sub = if hyphen_pos { None } else { sub };
     // which positionals are supplied: a prefix (index order); required ones always
     let mut npos = 0;
     for (k, pi) in poss.iter().enumerate() {
@@ -480,7 +510,7 @@ pub fn gen_intent(rng: &mut Rng, c: &CmdSpec, io: &IntentOpts) -> LevelIntent {
     let mut at = 0;
     for k in 0..npos {
         let a = &c.args[poss[k]];
-        if a.last {
+        if a.last || a.allow_hyphen {
             slots.push(Slot::P(poss[k]));
             continue;
         }
@@ -588,7 +618,34 @@ pub fn gen_intent(rng: &mut Rng, c: &CmdSpec, io: &IntentOpts) -> LevelIntent {
                     }
                     // otherwise it cannot be closed: the caller drops the subcommand
                 }
-                let toks: Vec<String> = (0..ntok).map(|j| value_tok(rng, a, occ, j)).collect();
+                let mut toks: Vec<String> = (0..ntok).map(|j| value_tok(rng, a, occ, j)).collect();
+                if a.allow_hyphen {
+                    // the first value is a plain word; after it anything is a value: known flags and
+                    // options of this level, help/version requests, unknown dash words
+                    toks[0] = format!("{}o{}v0", a.id, occ);
+                    for j in 1..toks.len() {
+                        if rng.coin() {
+                            let known: Vec<&ArgSpec> = c.args.iter().filter(|x| !x.is_positional()).collect();
+                            toks[j] = match rng.below(6) {
+                                0 if known.iter().any(|x| x.short.is_some()) => {
+                                    let shorts: Vec<char> = known.iter().filter_map(|x| x.short).collect();
+                                    let mut t = String::from("-");
+                                    for _ in 0..rng.range(1, 2) {
+                                        t.push(*rng.pick(&shorts));
+                                    }
+                                    t
+                                }
+                                1 if known.iter().any(|x| x.long.is_some()) => {
+                                    let longs: Vec<&String> = known.iter().filter_map(|x| x.long.as_ref()).collect();
+                                    format!("--{}", rng.pick(&longs))
+                                }
+                                2 => (*rng.pick(&["-h", "--help", "-V", "--version"])).to_string(),
+                                3 => format!("--{}o{}v{}=x", a.id, occ, j),
+                                _ => format!("-{}o{}v{}", a.id, occ, j),
+                            };
+                        }
+                    }
+                }
                 li.items.push(Item::Pos { arg: *pi, toks });
                 if let Some(t) = term {
                     li.items.push(Item::Term { tok: t });
